@@ -50,6 +50,7 @@ func main() {
 	verbose := flag.Bool("v", false, "print every obligation")
 	noEvidence := flag.Bool("no-evidence", false, "do not write evidence/violation files (selftests)")
 	list := flag.Bool("list", false, "list registered properties")
+	dump := flag.String("dump", "", "debug: dump edge facts and calls of pkg:Func (e.g. cbor:DecodeIdFromList)")
 	flag.Parse()
 	if d := os.Getenv("VERIF_DIR"); d != "" {
 		verifDir = d
@@ -77,6 +78,27 @@ func main() {
 	seed := 0
 	if s := os.Getenv("VERIF_SEED"); s != "" {
 		seed, _ = strconv.Atoi(s)
+	}
+	if *dump != "" {
+		w, err := loadWorld(*repo, false)
+		if err != nil {
+			fmt.Fprintln(os.Stderr, "load failed:", err)
+			os.Exit(2)
+		}
+		c := &Ctx{W: w, Prop: &Prop{ID: "dump"}, floors: map[string]int{}}
+		parts := strings.SplitN(*dump, ":", 2)
+		fn := c.SSAFunc(parts[0], parts[1])
+		for _, f := range withAnon(fn) {
+			fmt.Println("==", ssaFuncKey(f))
+			fmt.Print(dumpFacts(f))
+			for _, ci := range allCalls(f) {
+				fmt.Printf("  call b%d line %d: %s\n", ci.Block().Index, w.Fset.Position(ci.Pos()).Line, descCall(ci.Common(), 0))
+			}
+			for _, r := range successReturns(f) {
+				fmt.Printf("  success-return b%d line %d\n", r.Block().Index, c.blockLine(r.Block()))
+			}
+		}
+		return
 	}
 	if *pid == "warm" {
 		start := time.Now()
